@@ -323,8 +323,11 @@ def run_check(prop_factory, tier):
         (getattr(prop, "force_level", None) or "other")
     ev = {"property_id": pid, "tier": tier, "seed": seed, "level": level, "coverage": cov,
           "assumptions": prop.assumptions, "wall_s": round(time.time() - t0, 2), "violations": violations}
-    os.makedirs(os.path.join(core.VERIF, "evidence"), exist_ok=True)
-    with open(os.path.join(core.VERIF, "evidence", f"{pid}.json"), "w") as fh:
+    # evidence/ always describes /repo itself; runs against another tree ($CARD_UTILS_REPO, e.g. a seeded worktree)
+    # write to evidence_scratch/ so that committed evidence is never overwritten by them
+    evdir = "evidence" if os.path.realpath(core.REPO) == os.path.realpath("/repo") else "evidence_scratch"
+    os.makedirs(os.path.join(core.VERIF, evdir), exist_ok=True)
+    with open(os.path.join(core.VERIF, evdir, f"{pid}.json"), "w") as fh:
         json.dump(ev, fh, indent=1, default=str)
     print(f"{pid} {tier}: {evaluations} cases ({len(keys)} distinct non-trivial), {discharged}/{obligations} theorems, "
           f"{len(failing)} failing, {len(disagree)} disagreeing, exit {exit_code}, {ev['wall_s']} s")
